@@ -6,6 +6,7 @@ import (
 	"errors"
 	"fmt"
 	"math/big"
+	"sync"
 	"time"
 
 	"github.com/notaryproject/notation-core-go/signature"
@@ -80,6 +81,18 @@ func c19Parse(i int) *x509.Certificate {
 	return x
 }
 
+// c19Shared returns the one long-lived object of a role ("trust" / "chain") for a pool member.
+var c19SharedObjs sync.Map
+
+func c19Shared(role string, i int) *x509.Certificate {
+	k := fmt.Sprintf("%s/%d", role, i)
+	if v, ok := c19SharedObjs.Load(k); ok {
+		return v.(*x509.Certificate)
+	}
+	v, _ := c19SharedObjs.LoadOrStore(k, c19Parse(i))
+	return v.(*x509.Certificate)
+}
+
 func c19Scenarios(tier mc.Tier) []mc.Scenario {
 	maxLen := 3
 	if tier == mc.Thorough {
@@ -92,23 +105,64 @@ func c19Scenarios(tier mc.Tier) []mc.Scenario {
 		lists += p
 		p *= int64(np)
 	}
+	lists *= 4 // x what preceded the judged call
 	var out []mc.Scenario
 	var gen func(prefix []int)
 	body := func(chain []int, nilInfo bool) func(*mc.Ctx) {
 		return func(c *mc.Ctx) {
+			// what happened before the judged call: 0 nothing (all objects fresh); 1..3 an earlier call in the same process, with the
+			// certificate objects a long-lived caller would reuse (one object per trust-store entry, another per chain certificate)
+			prime := c.ChooseFree("preceding-call", 4)
 			tl := c.ChooseFree("trustlen", maxLen+1)
 			trustIdx := make([]int, tl)
 			trust := make([]*x509.Certificate, tl) // length 0: an empty, non-nil list
 			for i := 0; i < tl; i++ {
 				trustIdx[i] = c.ChooseFree("trust", np)
-				trust[i] = c19Parse(trustIdx[i]) // a fresh object: pointer identity cannot help the code under test
+				if prime == 0 {
+					trust[i] = c19Parse(trustIdx[i]) // a fresh object: pointer identity cannot help the code under test
+				} else {
+					trust[i] = c19Shared("trust", trustIdx[i])
+				}
 			}
 			var info *signature.SignerInfo
 			if !nilInfo {
 				info = &signature.SignerInfo{}
 				for _, ci := range chain {
-					info.CertificateChain = append(info.CertificateChain, c19Parse(ci))
+					if prime == 0 {
+						info.CertificateChain = append(info.CertificateChain, c19Parse(ci))
+					} else {
+						info.CertificateChain = append(info.CertificateChain, c19Shared("chain", ci))
+					}
 				}
+			}
+			if prime > 0 && tl > 0 && !nilInfo {
+				func() {
+					defer func() { recover() }()
+					switch prime {
+					case 1:
+						// trusted through the certificate at the end of the chain only
+						if n := len(chain); n > 0 {
+							signature.VerifyAuthenticity(info, []*x509.Certificate{c19Shared("trust", chain[n-1])})
+						}
+					case 2:
+						// the same slice held another trust list a moment ago (rotated by one), then was updated in place
+						saved := append([]*x509.Certificate(nil), trust...)
+						for i := range trust {
+							trust[i] = saved[(i+1)%tl]
+						}
+						if tl == 1 {
+							trust[0] = c19Shared("trust", (trustIdx[0]+1)%np)
+						}
+						signature.VerifyAuthenticity(info, trust)
+						copy(trust, saved)
+					case 3:
+						rev := make([]*x509.Certificate, tl)
+						for i := range trust {
+							rev[tl-1-i] = trust[i]
+						}
+						signature.VerifyAuthenticity(info, rev)
+					}
+				}()
 			}
 			c.Tracef("chain=%v trust=%v nilInfo=%v", chain, trustIdx, nilInfo)
 			// reference model
